@@ -57,6 +57,18 @@ def run(tier):
                     v.finding(key, "accepted program crashes the interpreter (profile %s, configuration %s, reference: %s %s): %s\n%s" % (module, mode, c["st"], why, det, src),
                               {"source": src, "mode": mode, "reference": c["st"], "why": why, "detail": det})
                     break
+    # the static counterpart of the table: every member built-in x every statically known receiver type x 0..3 arguments
+    r3 = le.generate("GenMethodArity", cfg="lang/GenMethodArity.cfg", coverage=False, timeout=600)
+    tally.add_tlc("GenMethodArity", r3)
+    recs = [dict(x, st="Unmodelled", why="static family", out=[]) for x in r3.records]
+    judged = le.replay(recs, modes=["nn", "fn", "fp"])
+    tally.add(judged)
+    for (c, src, maps, classes, resps) in judged:
+        for mode, (cls, det) in classes.items():
+            if cls == "crash":
+                v.finding("crash:methodarity:" + le.core_key(src), "the pipeline crashes on a member call (configuration %s): %s\n%s" % (mode, det, src),
+                          {"source": src, "mode": mode, "reference": "Unmodelled", "why": "static family", "detail": det})
+                break
     cov = tally.coverage(exhaustive=True)
     cov["table_programs"] = len(r.records)
     cov["table_programs_accepted_by_the_resolver"] = accepted
